@@ -888,10 +888,12 @@ def run(case):
     t0 = time.process_time()
     if wrap == "refcheck":
         out = refcheck(case)
-        out.setdefault("stats", {})["cpu_s"] = time.process_time() - t0
+        if os.environ.get("VERIF_CPU_STAT"):       # development aid; keeps replays deterministic by default
+            out.setdefault("stats", {})["cpu_s"] = time.process_time() - t0
         return out
     out = run_case(case)
-    out.setdefault("stats", {})["cpu_s"] = time.process_time() - t0
+    if os.environ.get("VERIF_CPU_STAT"):       # development aid; keeps replays deterministic by default
+        out.setdefault("stats", {})["cpu_s"] = time.process_time() - t0
     return out
 
 
